@@ -315,6 +315,8 @@ func Main() {
 }
 `
 	case 2: // const block with iota, typed constants, expression list repetition
+		m3 := alt("= iota", "= \"go\"", "int8 = iota", "= M1")
+		use := map[string]string{"= iota": "M4 + 1", "= \"go\"": "len(M4)", "int8 = iota": "int(M4)", "= M1": "0"}[m3]
 		return `type Num int
 
 const (
@@ -329,7 +331,7 @@ const (
 const (
 	M1 ` + alt("uint16 = iota", "= iota", "float32 = 1.5", "Num = 2") + `
 	M2
-	M3 ` + alt("= iota", "= \"go\"", "int8 = iota", "= M1") + `
+	M3 ` + m3 + `
 	M4
 	M5, M6 = iota, ` + alt("iota * 2", "\"x\"", "true") + `
 	M7, M8
@@ -338,6 +340,7 @@ const Big = 1 << 40
 
 func F() Num { return A + B*C }
 func G() int { return K1 + K3 + len(K2+K4) }
+func UseM() int { return ` + use + ` }
 `
 	case 3: // package-level variables: typed, inferred, multi-value, dependent initialisers
 		return `func two() (int, string) { return 2, "b" }
